@@ -20,7 +20,8 @@ InRange(xs, lo, hi) == \A i \in DOMAIN xs : xs[i] >= lo /\ xs[i] <= hi
 InRange2(m, lo, hi) == \A i \in DOMAIN m : InRange(m[i], lo, hi)
 NonDecreasing(xs, slack) == \A i \in 1..(Len(xs) - 1) : xs[i + 1] >= xs[i] - slack
 NonIncreasing(xs, slack) == \A i \in 1..(Len(xs) - 1) : xs[i + 1] <= xs[i] + slack
-Close(a, b, atol, rtolppm) == Abs(a - b) <= atol + (MaxI(Abs(a), Abs(b)) \div 1000000) * rtolppm
+Close(a, b, atol, rtolppm) == IF a = NAN \/ b = NAN THEN a = b
+                              ELSE Abs(a - b) <= atol + (MaxI(Abs(a), Abs(b)) \div 1000000) * rtolppm
 CloseSeq(xs, ys, atol, rtolppm) == Len(xs) = Len(ys) /\ \A i \in DOMAIN xs : Close(xs[i], ys[i], atol, rtolppm)
 Column(m, j) == [i \in DOMAIN m |-> m[i][j]]
 
@@ -35,6 +36,8 @@ Symmetric(C, atol, rtolppm) == \A i \in DOMAIN C : \A j \in DOMAIN C : Close(C[i
 PointwiseLeq(C1, C2, slack) == \A i \in DOMAIN C1 : \A j \in DOMAIN C1[i] : C1[i][j] <= C2[i][j] + slack
 
 (* ---- integral form of a derivative relation: |I6 - dF| <= 4 |I6 - I3| + atol + rtol |dF| ------------ *)
-Quadrature(i6, i3, df, atol, rtolppm) == Abs(i6 - df) <= 4 * Abs(i6 - i3) + atol + (Abs(df) \div 1000000) * rtolppm
+\* a cell whose integrand is not finite at a node (an integrable singularity at a support end) carries no information
+Quadrature(i6, i3, df, atol, rtolppm) == (i6 = NAN \/ i3 = NAN \/ df = NAN) \/
+                                         Abs(i6 - df) <= 4 * Abs(i6 - i3) + atol + (Abs(df) \div 1000000) * rtolppm
 QuadratureSeq(I6, I3, DF, atol, rtolppm) == \A i \in DOMAIN I6 : Quadrature(I6[i], I3[i], DF[i], atol, rtolppm)
 =============================================================================
